@@ -102,14 +102,18 @@ def _gen_condition(rng, tier, variant):
                         if tier == 'quick' and rng.random() < 0.6:
                             continue
                         yield {'op': op, 'items': [['L', [lv[0], _enc(lv[1]), _enc(lv[2])]], ['R', [rv[0], _enc(rv[1]), _enc(rv[2])]]],
-                               'left': 'L', 'rparam': 'R', 'rvalue': None, 'lcal': lcal, 'rcal': rcal}
+                               'left': 'L', 'rparam': 'R', 'rvalue': None, 'lcal': lcal, 'rcal': rcal,
+                               'cur': CUR_OF_VARIANT.get(variant)}
             for lit in ('0', '5', '2.5', 'ON', ''):
                 yield {'op': op, 'items': [['L', [lv[0], _enc(lv[1]), _enc(lv[2])]]], 'left': 'L', 'rparam': None,
-                       'rvalue': lit, 'lcal': rng.choice([True, False]), 'rcal': False}
+                       'rvalue': lit, 'lcal': rng.choice([True, False]), 'rcal': False, 'cur': CUR_OF_VARIANT.get(variant)}
         yield {'op': op, 'items': [['L', ['IntParameter', 1, None]]], 'left': 'X', 'rparam': None, 'rvalue': '1',
                'lcal': True, 'rcal': False}
         yield {'op': op, 'items': [['L', ['IntParameter', 1, None]]], 'left': 'L', 'rparam': 'Y', 'rvalue': None,
                'lcal': True, 'rcal': True}
+
+
+CUR_OF_VARIANT = {'no_current': None, 'current_int': 3, 'current_float': 2.5, '': None}
 
 
 def _build_condition(r):
@@ -117,7 +121,7 @@ def _build_condition(r):
         from space_packet_parser.xtce.comparisons import Condition
         c = Condition(r['left'], r['op'], right_param=r['rparam'], right_value=r['rvalue'],
                       left_use_calibrated_value=r['lcal'], right_use_calibrated_value=r['rcal'])
-        return {'self': c, 'packet': mk_packet(r['items'])}
+        return {'self': c, 'packet': mk_packet(r['items']), 'current_parsed_value': r.get('cur')}
     return {'make': make}
 
 
@@ -153,12 +157,12 @@ def _gen_boolexpr(rng, tier, variant):
     for kind in ('and', 'or'):
         for t in _all_trees(3, kind):
             for a, b in itertools.product((0, 1), repeat=2):
-                yield {'tree': t, 'vals': {'A': a, 'B': b, 'C': 0, 'D': 1}}
+                yield {'tree': t, 'vals': {'A': a, 'B': b, 'C': 0, 'D': 1}, 'cur': CUR_OF_VARIANT.get(variant)}
     for _ in range(400 if tier == 'quick' else 6000):
         t = _rand_tree(rng, rng.randint(0, 5), rng.choice(['and', 'or']))
-        yield {'tree': t, 'vals': {k: rng.randint(0, 1) for k in 'ABCD'}}
+        yield {'tree': t, 'vals': {k: rng.randint(0, 1) for k in 'ABCD'}, 'cur': CUR_OF_VARIANT.get(variant)}
     for v in (0, 1):
-        yield {'tree': {'k': 'cond', 'c': ['A'], 's': []}, 'vals': {'A': v, 'B': 0, 'C': 0, 'D': 0}}
+        yield {'tree': {'k': 'cond', 'c': ['A'], 's': []}, 'vals': {'A': v, 'B': 0, 'C': 0, 'D': 0}, 'cur': CUR_OF_VARIANT.get(variant)}
 
 
 def _mk_tree(t):
@@ -174,7 +178,8 @@ def _build_boolexpr(r):
     def make():
         from space_packet_parser.xtce.comparisons import BooleanExpression
         items = [[k, ['IntParameter', v, None]] for k, v in r['vals'].items()]
-        return {'self': BooleanExpression(_mk_tree(r['tree'])), 'packet': mk_packet(items)}
+        return {'self': BooleanExpression(_mk_tree(r['tree'])), 'packet': mk_packet(items),
+                'current_parsed_value': r.get('cur')}
     return {'make': make}
 
 
@@ -235,7 +240,8 @@ CONTRACTS = [
     Contract(
         target='xtce.comparisons.Condition.evaluate',
         props=['C06', 'C05', 'C08', 'C01'],
-        params={'self': ('rec', 'Condition'), 'packet': PKT_C06, 'current_parsed_value': 'none'},
+        params={'self': ('rec', 'Condition'), 'packet': PKT_C06},
+        variants={'no_current': {'params': {'current_parsed_value': 'none'}}, 'current_int': {'params': {'current_parsed_value': 'int'}}, 'current_float': {'params': {'current_parsed_value': 'real'}}},
         returns='bool',
         # operands of the same kind (both numeric - int versus float included - or both text); other mixtures are
         # outside the property statement.  The operator spelling is validated by Condition._validate.
@@ -264,7 +270,8 @@ CONTRACTS = [
     Contract(
         target='xtce.comparisons.BooleanExpression.evaluate',
         props=['C06', 'C05', 'C08', 'C01'],
-        params={'self': ('rec', 'BooleanExpression'), 'packet': PKT_C06, 'current_parsed_value': 'none'},
+        params={'self': ('rec', 'BooleanExpression'), 'packet': PKT_C06},
+        variants={'no_current': {'params': {'current_parsed_value': 'none'}}, 'current_int': {'params': {'current_parsed_value': 'int'}}, 'current_float': {'params': {'current_parsed_value': 'real'}}},
         returns='bool',
         requires=[],
         ensures={
@@ -272,9 +279,11 @@ CONTRACTS = [
             'truth': ("result == (sem_cond(self.expression, packet) if cls_is(self.expression, 'Condition') else "
                       "(sem_and(self.expression, packet) if cls_is(self.expression, 'Anded') else "
                       "sem_or(self.expression, packet)))", ['__proof__']),
+            'denotes': ('result == sem_bexp(self, packet)', ['__proof__']),
             'truth_exact': ('(result is True or result is False) and result == ref_boolexpr(self, packet)', ['__native__']),
         },
         may_raise={'ComparisonError': 'True', 'ValueError': 'True', 'KeyError': 'True', 'TypeError': 'True'},
+        reveal=['sem_bexp'],
         modifies=[],
         native={'gen': _gen_boolexpr, 'build': _build_boolexpr},
     ),
